@@ -319,9 +319,8 @@ Section Main.
   (* ---- the two APIs are the same function of the shell's answer *)
   Lemma apis_agree x r : run_cmd x r = run_cap x r.
   Proof.
-    unfold run_cmd, run_cap, Resp.run_cmd, Resp.run_cap, finish_cmd, client_send0.
-    destruct r as [resp | e]; [|reflexivity].
-    destruct (from_protocol resp); reflexivity.
+    unfold run_cmd, run_cap, Resp.run_cmd, Resp.run_cap, finish_cmd.
+    destruct (client_send0 r); reflexivity.
   Qed.
 
   Lemma run_cmd_run a x r : run a x r = run_cmd x r.
@@ -386,7 +385,7 @@ Section Main.
     then T1 (HErr (EHttp (r_status resp) (dec (r_status resp)) (Some (r_body resp))))
     else emit (decode_exp x (resp0 resp)).
   Proof.
-    intros Hk Ha. rewrite run_cmd_run. unfold run_cmd, Resp.run_cmd, finish_cmd.
+    intros Hk Ha. rewrite run_cmd_run. unfold run_cmd, Resp.run_cmd, finish_cmd, client_send0.
     rewrite (from_protocol_ok resp Hk Ha). cbn [hbind].
     destruct ((400 <=? r_status resp) && (r_status resp <? 600)) eqn:E.
     - rewrite response_new_err by exact E. reflexivity.
@@ -397,7 +396,7 @@ Section Main.
     known_status (r_status resp) && all_ascii (r_headers resp) = false ->
     exists msg, run a x (ROk resp) = T1 (HErr (EIo msg)).
   Proof.
-    intros H. rewrite run_cmd_run. unfold run_cmd, Resp.run_cmd, finish_cmd.
+    intros H. rewrite run_cmd_run. unfold run_cmd, Resp.run_cmd, finish_cmd, client_send0.
     destruct (from_protocol_cases resp) as [[msg E] | [Hk [Ha _]]].
     - rewrite E. exists msg. reflexivity.
     - rewrite Hk, Ha in H. discriminate.
@@ -406,7 +405,7 @@ Section Main.
   Lemma run_unknown_status a x resp : known_status (r_status resp) = false ->
     run a x (ROk resp) = T1 (HErr (EIo (msg_status (r_status resp)))).
   Proof.
-    intros H. rewrite run_cmd_run. unfold run_cmd, Resp.run_cmd, finish_cmd.
+    intros H. rewrite run_cmd_run. unfold run_cmd, Resp.run_cmd, finish_cmd, client_send0.
     rewrite from_protocol_unknown by exact H. reflexivity.
   Qed.
 
